@@ -71,3 +71,10 @@ Proof.
   - unfold schmidt_K. rewrite E1, E2. reflexivity.
   - rewrite E2. exact H.
 Qed.
+
+Theorem exec_twin_correct n mags :
+  trG2 ROps n (mat_of n (Rmags mags)) <> 0%R ->
+  Q2R (schmidt_K_Q n mags) = schmidt_K ROps n (mat_of n (Rmags mags)) /\
+  Q2R (trG_Q n mags) = trG ROps n (mat_of n (Rmags mags)) /\
+  Q2R (trG2_Q n mags) = trG2 ROps n (mat_of n (Rmags mags)).
+Proof. intros H. repeat split; [apply schmidt_K_Q_correct; exact H|apply trG_Q_correct|apply trG2_Q_correct]. Qed.
